@@ -1323,6 +1323,16 @@ REG["abc.abstractmethod"] = lambda f: f
 REG["abc.ABC"] = TypeTag("ABC", lambda x: False)
 
 
+# scipy.ndimage (numerical kernels are uninterpreted; only shapes / index maps are modelled) ---------------
+def _ndi_map_coordinates(input, coordinates, output=None, order=3, mode="constant", cval=0.0, prefilter=True):
+    c = A.from_nested(coordinates)
+    shp = c.shape[1:]
+    f = z3.Function(V.fresh_name("mapcoord"), *([I] * len(shp)), R)
+    return SArr(shp, lambda idx: Sym(f(*[V.lift(i) for i in idx])), "real")
+
+
+REG["scipy.ndimage.map_coordinates"] = _ndi_map_coordinates
+
 # dask.array ------------------------------------------------------------------
 REG["dask.array.pad"] = np_pad
 REG["dask.array.from_array"] = lambda x, *a, **k: A.from_nested(x)
